@@ -24,6 +24,7 @@ func init() {
 			"V6 fileArgs/filePostNodes/fileParamMap are only accessed under Fork.storageLock outside the constructor phase, " +
 			"V7 alias completeness: once a file is known to exist every returning path of getLogicalFileNames consults filepath.EvalSymlinks and appends its result, " +
 			"V8 whole-call references: LazyArgumentMap.jsonPath maps the empty output id to the whole outs map (or every call site excludes the empty path). " +
+			"V9 the type-less projection jsonPath applies the remaining path to every entry of a decoded object (typed map) as it does to every array element; V7c the walked side of anyOverlap is a getLogicalFileNames result on all paths. " +
 			"NOT decided: whether the names found are every alias of a file, anyOverlap (file-system values).",
 		Assumptions: commonAssumptions,
 	}
@@ -83,6 +84,29 @@ func ruleV1(c *an.Ctx) {
 				return
 			}
 			owner := an.FnName(an.Outermost(fn))
+			if _, ok := deleteOwners[owner]; !ok {
+				// a block of a tabled owner extracted into a private helper keeps its owner's class:
+				// unexported, and every caller (through further such helpers) is one tabled function
+				host := an.Outermost(fn)
+				for hops := 0; hops < 3 && host.Object() != nil && !host.Object().Exported(); hops++ {
+					var callers []*ssa.Function
+					seen := map[*ssa.Function]bool{}
+					for caller := range p.Callers(host) {
+						if o := an.Outermost(caller); !seen[o] {
+							seen[o] = true
+							callers = append(callers, o)
+						}
+					}
+					if len(callers) != 1 {
+						break
+					}
+					host = callers[0]
+					if _, ok := deleteOwners[an.FnName(host)]; ok {
+						owner = an.FnName(host)
+						break
+					}
+				}
+			}
 			counts[owner]++
 			if _, ok := deleteOwners[owner]; !ok {
 				c.Undecided("V1", "delete-site@"+owner, in.Pos(),
